@@ -377,6 +377,44 @@ pub fn leading_zero_family() -> Vec<(String, ModelSpec)> {
     out
 }
 
+/// F10: models whose type n-grams fill only one region of the cached type scorer's table (type
+/// windows 1..=3): a single n-gram spanning the whole window (length 2W) or all but one position,
+/// starting with each character type that the evaluation alphabets contain, and pairs of them - the
+/// non-zero table entries then sit only in the lower / only in the upper part of the table.
+pub fn cache_table_family() -> Vec<(String, ModelSpec)> {
+    use crate::mirror::NgramData;
+    let mut out = vec![];
+    let types = [2u8, 3, 5]; // Roman, Hiragana, Kanji ('a'/'b', 'あ', '𠀋')
+    for w in 1u8..=3 {
+        for len in [2 * w as usize, (2 * w as usize).max(2) - 1] {
+            let mut singles = vec![];
+            // the left-most type ranges over ALL six character types (also those that do not occur in the
+            // evaluation texts: a table lookup that loses high bits of the left-most type id makes a text
+            // with another type there hit their entries)
+            for first in 1u8..=6 {
+                for &fill in &types {
+                    let ng: Vec<u8> = (0..len).map(|i| if i == 0 { first } else if i % 2 == 1 { fill } else { first }).collect();
+                    let n = 2 * w as usize + 1 - len;
+                    singles.push(NgramData { ngram: ng, weights: (0..n).map(|k| 7 + 4 * k as i32 + first as i32).collect() });
+                }
+            }
+            singles.dedup_by(|a, b| a.ngram == b.ngram);
+            for (i, a) in singles.iter().enumerate() {
+                let mut m = ModelSpec { bias: -2, char_window_size: 1, type_window_size: w, ..Default::default() };
+                m.type_ngram_model.push(a.clone());
+                out.push((format!("cache-table w={w} ngram={:?}", a.ngram), m.clone()));
+                if let Some(b) = singles.get(i + 1) {
+                    if b.ngram != a.ngram {
+                        m.type_ngram_model.push(b.clone());
+                        out.push((format!("cache-table w={w} ngrams={:?}+{:?}", a.ngram, b.ngram), m));
+                    }
+                }
+            }
+        }
+    }
+    out
+}
+
 /// F3: large windows; single- and two-entry models; long runs.
 fn f3(tier: Tier) -> (Vec<Built>, Vec<Vec<char>>) {
     let mut ms = vec![];
@@ -508,6 +546,9 @@ pub fn run(tier: Tier) -> ! {
         chk.set("f8_texts", json!(t8.len()));
         f8.par_iter().enumerate().for_each(|(i, b)| check_model(&chk, b, &t8, i % 16 == 0));
     }
+    let f10: Vec<Built> = cache_table_family().into_iter().map(|(desc, spec)| Built { spec, desc }).collect();
+    fam_counts.insert("F10-cache-table-regions".into(), json!(f10.len()));
+    f10.par_iter().for_each(|b| check_model(&chk, b, &texts, true));
     let f9: Vec<Built> = leading_zero_family().into_iter().map(|(desc, spec)| Built { spec, desc }).collect();
     fam_counts.insert("F9-leading-zeros".into(), json!(f9.len()));
     f9.par_iter().for_each(|b| check_model(&chk, b, &texts, true));
